@@ -1,5 +1,6 @@
 import PgBifrost.Proofs.Kinesis
 import PgBifrost.Gen.KinesisSrc
+import PgBifrost.Gen.KinesisLoopSrc
 /-!
 # C11 — Kinesis: written means every record was accepted; only failures are retried
 
@@ -243,5 +244,15 @@ theorem kinesis_attempt_as_in_source {α : Type} (fuel : Nat) (cur : List α) (o
         cases compact cur codes <;> rfl
       · have hl' : cur.length ≠ codes.length := fun h => hl h.symm
         simp [h0, hl, hl']
+
+/-- The loop body of `StartTransporting`, translated statement by statement in source order, is the model's
+`processBatch`: the duration stat precedes the error test, the error test the cancellation test, and the `written`
+stat and the hand-over of the batch's transactions to the progress channel come only after both. -/
+theorem kinesis_iteration_as_in_source {α : Type} (budget : Nat) (j : Job α) :
+    PgBifrost.Gen.KinesisLoopSrc.iteration budget j = processBatch budget j := by
+  unfold PgBifrost.Gen.KinesisLoopSrc.iteration processBatch
+  cases hp : j.preCancelled
+  · cases hr : (run j.recs j.outs budget).1 <;> simp [Id.run, hr, pure, bind]
+  · simp [Id.run, pure, bind]
 
 end PgBifrost.Props.C11
